@@ -220,6 +220,52 @@ fn main() {
         }
     });
     eprintln!("[c02] move graphs done at {:.1}s", run.elapsed());
+    // ---- (a') presentations that still list a smoothed crossing -----------------------------------------
+    // `Link::resolved_at(c, bit)` keeps the smoothed crossing in the link data; `smoothed_pd` is the PD
+    // code of the same diagram without it.  The bigraded tables of the two presentations must agree.
+    {
+        let fam2 = planar_family(3);
+        let jobs: Vec<(usize, usize, bool)> = fam2.iter().enumerate().flat_map(|(i, (_, d))| (0..d.n).flat_map(move |c| [(i, c, false), (i, c, true)])).collect();
+        run.par_for(jobs.len(), |j| {
+            let (i, c, bit) = jobs[j];
+            let (name, d) = &fam2[i];
+            // only the orientation-preserving smoothing: after the other one the signs of the remaining
+            // crossings (hence the normalisation of Kh) are not defined; and only results whose
+            // orientation is determined by the code (a knot, or every component passes under somewhere)
+            if bit != (d.sign(c) < 0) {
+                return;
+            }
+            let Some(code) = smoothed_pd(d, c, bit) else { return };
+            let Some((d2, _)) = Diagram::from_pd(&code) else { return };
+            let comps = d2.crossing_components();
+            let ncomp = d2.components().len();
+            let passes_under: std::collections::BTreeSet<usize> = comps.iter().map(|x| x.0).collect();
+            if ncomp > 1 && passes_under.len() < ncomp {
+                return;
+            }
+            run.add("smoothed_presentations", 1);
+            run.add("evaluations", 4);
+            let l1 = to_link(d).resolved_at(c, if bit { yui::bitseq::Bit::Bit1 } else { yui::bitseq::Bit::Bit0 });
+            let l2 = Link::from_pd_code(code.clone());
+            let key = format!("khmove:smoothed:{name}:{}:c{c}:b{}", code_string(d), bit as u8);
+            match (kh::<i64>(&l1, false), kh::<i64>(&l2, false)) {
+                (Ok(a), Ok(b)) => {
+                    if let Some(diff) = diff_tables(&a, &b) {
+                        run.fail(&key, &format!("Kh of the diagram with the smoothed crossing still listed differs from Kh of the same diagram without it: {diff}"), json!({"pd": d.pd(), "crossing": c, "bit": bit, "smoothed_pd": code}));
+                    }
+                }
+                (a, b) => run.fail(&key, &format!("panicked: {:?} / {:?}", a.err(), b.err()), json!({"pd": d.pd(), "crossing": c, "bit": bit})),
+            }
+            match (kh::<FF2>(&l1, false), kh::<FF2>(&l2, false)) {
+                (Ok(a), Ok(b)) => {
+                    if let Some(diff) = diff_tables(&a, &b) {
+                        run.fail(&format!("{key}:FF2"), &format!("over F2: {diff}"), json!({"pd": d.pd(), "crossing": c, "bit": bit, "smoothed_pd": code}));
+                    }
+                }
+                (a, b) => run.fail(&format!("{key}:FF2"), &format!("panicked: {:?} / {:?}", a.err(), b.err()), json!({"pd": d.pd()})),
+            }
+        });
+    }
     // ---- (c) long histories: one path of up to 61 moves from a small diagram ---------------------------
     // Every kink type in turn on edges spread over the diagram (R1), and for braids cancelling pairs
     // plus Markov stabilisations; the library's tables at the checkpoints (31, 32, 33, 34, 40, 48, 63
@@ -296,6 +342,7 @@ fn main() {
     eprintln!("[c02] long braid histories done at {:.1}s", run.elapsed());
     let coverage = json!({
         "long_history_checkpoints": run.get("long_history_checkpoints"),
+        "presentations_with_a_smoothed_crossing": run.get("smoothed_presentations"),
         "states": run.get("diagrams") + run.get("braid_words"),
         "transitions": run.get("move_edges"),
         "traces_validated_against_impl": run.get("evaluations"),
